@@ -5,6 +5,8 @@ package main
 import (
 	"fmt"
 	"strings"
+
+	cli "github.com/jawher/mow.cli"
 )
 
 // C14: help and version requests short-circuit everything else.
@@ -119,6 +121,33 @@ func deepHelp(c *Ctx) {
 				if !hasUsageOf(o.Stderr, cur) || len(tr.calls) != 0 || o.Panicked {
 					c.Violation("C14", fmt.Sprintf("tree=%s policy=%d first Run %q --help, then on the same instance %q", shapeText(shape), pol, p[:len(p)-up], args),
 						Case{"shape": 99, "kinds": assign, "policy": pol, "args": args}, "long help of "+cur.path()+" printed, nothing runs", fmt.Sprintf("calls=%v panicked=%v stderr=%q", tr.calls, o.Panicked, firstLines(o.Stderr, 3)))
+				}
+			}
+		}
+	}
+	// a command declared after a first Run of the same instance is addressed by a later help request
+	for pol := 0; pol < 3; pol++ {
+		for _, first := range [][]string{{"c2"}, {"c1", "d2"}, {"--help"}, {"c1", "-h"}} {
+			for _, h := range [][]string{{"late", "--help"}, {"lt", "-h"}, {"lt", "x", "-h"}} {
+				app, tr := buildTree(shape, treeOpts{kinds: assign, rootPol: pol, hooks: true})
+				runIsolated(func() error { return app.Run(append([]string{"app"}, first...)) })
+				lateRan := 0
+				app.Command("late lt", "declared after the first run", func(sub *cli.Cmd) {
+					sub.StringArg("X", "", "")
+					sub.Action = func() { lateRan++ }
+				})
+				tr.calls = nil
+				o := runIsolated(func() error { return app.Run(append([]string{"app"}, h...)) })
+				c.Count("evaluations", 1)
+				c.Count("nontrivial", 1)
+				c.Count("help_of_late_command", 1)
+				okEnd := o.Returned && o.Err == nil && len(o.Exits) == 0
+				if pol == 1 {
+					okEnd = len(o.Exits) == 1 && o.Exits[0] == 0
+				}
+				if !strings.Contains(o.Stderr, "Usage: app late X") || len(tr.calls) != 0 || lateRan != 0 || o.Panicked || !okEnd {
+					c.Violation("C14", fmt.Sprintf("tree=%s policy=%d first Run %q, then Command(\"late lt\") on the same instance and Run %q", shapeText(shape), pol, first, h),
+						Case{"shape": 99, "kinds": assign, "policy": pol, "args": h}, "long help of `app late` (Usage: app late X), nothing runs, exit 0 / nil", fmt.Sprintf("calls=%v late=%d panicked=%v exits=%v err=%v stderr=%q", tr.calls, lateRan, o.Panicked, o.Exits, o.Err, firstLines(o.Stderr, 3)))
 				}
 			}
 		}
